@@ -146,4 +146,30 @@ example : AddOk (Book.new 7 {}) [(1804, 0)] [] (fun i => i) := by
   · intro e he e' he'; simp at he he'; subst he; subst he'; rfl
   · intro e he x hx; simp at he; subst he; simp [nd_new] at hx
 
+-- a transposition: node 3 is added under the root and gets the existing node 2 (depth 2) as its child
+example : AddOk exB [(30, 0)] [(40, 2)] exR := by
+  have hsz : exB.size = 3 := by decide
+  have hcase : ∀ i, i < exB.size → i = 0 ∨ i = 1 ∨ i = 2 := by intro i hi; omega
+  refine ⟨by simp, ?_, ?_, ?_, ?_, ?_, ?_, ?_, ?_, ?_, ?_, by decide⟩
+  · intro e he; simp at he; subst he; decide
+  · intro e he; simp at he; subst he; decide
+  · intro i hi; rw [hsz] at hi ⊢; unfold exR; split <;> (try split) <;> omega
+  · intro i hi c hc
+    rcases hcase i hi with rfl | rfl | rfl
+    · have : childIds (exB.nd 0) = [1] := by decide
+      rw [this] at hc; simp at hc; subst hc; decide
+    · have : childIds (exB.nd 1) = [2] := by decide
+      rw [this] at hc; simp at hc; subst hc; decide
+    · have : childIds (exB.nd 2) = [] := by decide
+      rw [this] at hc; simp at hc
+  · intro e he; simp at he; subst he; decide
+  · intro e he; simp at he; subst he; decide
+  · intro e he e' he'; simp at he he'; subst he; subst he'; rfl
+  · intro e he e' he'; simp at he he'; subst he; subst he'; decide
+  · intro e he x hx; simp at he; subst he
+    have : (exB.nd 0).children = [(10, 1)] := by decide
+    rw [this] at hx; simp at hx; subst hx; decide
+  · intro e he e' he' _; simp at he he'; rw [he, he']
+example : exB.pending = [] ∧ exB.size < DEPTH_INF := by decide
+
 end Props.C19
